@@ -143,6 +143,10 @@ def run(ctx):
     efail = [(j, o) for j, o in zip(ejobs, eres) if o.get("valid") is not (not c05.eff(j[2], j[1], "fail"))]
     # ---------------- C. aggregation
     gjobs = [gen_group(rng, i) for i in range(150 if quick else 2500)]
+    # the witness of the open finding unstarted-member-aggregate, in every run
+    gjobs.append({"id": len(gjobs), "files": {"f": [["id", "a"], ["r1", "1"], ["r2", "2"]]},
+                  "groups": {"g": ['~id: m0~ $[*][ push("s", line_number()) ]', '~id: m1 run-mode: no-run~ $[*][ push("s", line_number()) ]']},
+                  "runs": [{"method": "collect_paths", "pathsname": "g", "filename": "f", "new_instance": True}], "inspect": agg_inspect})
     gres = pmap(ctx, groups.run_history, gjobs, chunksize=4)
     alits, aidx = [], []
     for gi, (j, r) in enumerate(zip(gjobs, gres)):
